@@ -652,10 +652,17 @@ def file_info_big_subjects(rng, quick):
         s1, ioff1, ilen1 = _xz_index_only_stream(recs(n1), check=rng.choice((0, 1, 4, 10)), padding=0)
         base = len(s0)
         # where file_size - 8192 should fall, relative to Stream 1 (offsets inside s1) ...
-        targets = [ioff1 - 5, ioff1 + 1, ioff1 + ilen1 // 2, ioff1 + ilen1 - 3, ioff1 + ilen1 + 5, len(s1) + 2]
-        follows = [t + 8192 - len(s1) for t in targets if t + 8192 - len(s1) >= 40]
+        # (every boundary -13..+13: the decoder compares sizes that differ by the 12-byte Stream Header / Footer)
+        near = [ioff1 + d for d in (-13, -12, -5, -1, 0, 1, 5, 11, 12, 13)]
+        far = [ioff1 + ilen1 // 2, ioff1 + ilen1 - 3, ioff1 + ilen1 + 5, len(s1) + 2]
+        follows_near = [t + 8192 - len(s1) for t in near if t + 8192 - len(s1) >= 40]
+        follows_far = [t + 8192 - len(s1) for t in far if t + 8192 - len(s1) >= 40]
+        if quick:
+            follows = rng.sample(follows_near, min(5, len(follows_near))) + rng.sample(follows_far, min(1, len(follows_far)))
+        else:
+            follows = follows_near + follows_far
         # ... or simply a last Stream with n2 Records (its own Index may exceed the window)
-        tails = [("n2", None)] + [("tuned", f) for f in (follows if not quick else rng.sample(follows, min(2, len(follows))))]
+        tails = [("n2", None)] + [("tuned", f) for f in follows]
         for kind, follow in tails:
             if kind == "n2":
                 s2, _, _ = _xz_index_only_stream(recs(n2), check=1, padding=0)
